@@ -32,6 +32,18 @@ pub fn run(ctx: &mut Ctx) {
             }
         });
     }
+    // the same in a manager of up to 200 variables (history variables spread over the labels)
+    for case in ctx.cases("wide", 300, true) {
+        let c2 = checks.clone();
+        ctx.run_case("wide", case, move |ctx, rng| {
+            let mut cfg = random_cfg(rng, 6, true);
+            cfg.nops = rng.range(10, 90);
+            let ops = gen_history(&cfg, rng);
+            let _g = crate::gen::LabelMapGuard::new(crate::gen::random_label_map(cfg.n0, rng));
+            ctx.count("histories_over_spread_labels", 1);
+            run_history(ctx, &cfg, &ops, &c2);
+        });
+    }
     for case in ctx.cases("long", 12, true) {
         let c2 = checks.clone();
         ctx.run_case("long", case, move |ctx, rng| {
